@@ -209,7 +209,7 @@ def check_property(prop, tier='quick', seed=0, only=None, verbose=False):
                            'solver': 'z3 model of path condition and negated obligation',
                            'replay_cmd': './vcheck %s --replay %s' % (prop, replay_path)}
                 confirmed = None
-                if run is not None and not run.get('error'):
+                if run is not None:
                     ens = {e[0]: e for e in run['ensures']}
                     if rec['name'] in ens:
                         confirmed = ens[rec['name']][2] is False
